@@ -31,7 +31,7 @@ func isMapType(e ast.Expr) bool {
 }
 
 func mapRangeFacts(repo string, _ *pkgFiles, f *facts) {
-	var rows [][]string
+	var rows, registering [][]string
 	for _, dir := range []string{".", "factory", "common", "check", "schema"} {
 		p := parseDir(filepath.Join(repo, dir))
 		// package-level knowledge: struct fields of map type, functions returning a map, named map types
@@ -171,6 +171,16 @@ func mapRangeFacts(repo string, _ *pkgFiles, f *facts) {
 					case *ast.RangeStmt:
 						if isMapExpr(x.X) {
 							rows = append(rows, []string{dir, fname, fn, "range " + strings.Join(strings.Fields(p.src(x.X)), " ")})
+							// does the body REGISTER something with the model in this order (a constraint, an objective term)? The order of
+							// registration is the order in which estimates are asked and terms are summed (E46).
+							ast.Inspect(x.Body, func(m ast.Node) bool {
+								if c, ok := m.(*ast.CallExpr); ok {
+									if se, ok := c.Fun.(*ast.SelectorExpr); ok && (se.Sel.Name == "AddConstraint" || se.Sel.Name == "NewTerm") {
+										registering = append(registering, []string{dir, fname, fn, se.Sel.Name})
+									}
+								}
+								return true
+							})
 						}
 					case *ast.CallExpr:
 						if se, ok := x.Fun.(*ast.SelectorExpr); ok {
@@ -186,6 +196,7 @@ func mapRangeFacts(repo string, _ *pkgFiles, f *facts) {
 		}
 	}
 	f.recs["mapRanges"] = rows
+	f.recs["mapRangesRegistering"] = registering
 }
 
 func argSrc(p *pkgFiles, c *ast.CallExpr) string {
@@ -227,4 +238,32 @@ func checkProbeFacts(repo string, _ *pkgFiles, f *facts) {
 		})
 	}
 	f.strs["checkProbes"] = val
+}
+
+func init() { extraExtractors = append(extraExtractors, noMixHintFacts) }
+
+// noMixEstimateHints (C12): the distinct hints `noMixConstraintImpl.EstimateIsViolated` can return (second result of every
+// return statement). The factory adds one no-mix constraint per item type IN MAP ORDER; that is harmless only while all of
+// them answer with the same hint (the first violated constraint decides the hint the search gets).
+func noMixHintFacts(repo string, _ *pkgFiles, f *facts) {
+	p := parseDir(repo)
+	seen := map[string]bool{}
+	var hints []string
+	if fd := p.funcDecl("model_constraint_no_mix.go", "noMixConstraintImpl", "EstimateIsViolated"); fd != nil && fd.Body != nil {
+		ast.Inspect(fd.Body, func(n ast.Node) bool {
+			if _, isLit := n.(*ast.FuncLit); isLit {
+				return false
+			}
+			if r, ok := n.(*ast.ReturnStmt); ok && len(r.Results) == 2 {
+				h := strings.Join(strings.Fields(p.src(r.Results[1])), " ")
+				if !seen[h] {
+					seen[h] = true
+					hints = append(hints, h)
+				}
+			}
+			return true
+		})
+	}
+	sort.Strings(hints)
+	f.lists["noMixEstimateHints"] = hints
 }
